@@ -150,7 +150,7 @@ def sample_pool():
             uc.USet(), uc.USet([1]), uc.USet(['a']), uc.UColl([1]), uc.UColl(['a']), uc.UColl(),
             uc.UMap(), uc.UMap({'a': 1}), uc.UMap({1: 'a'}),
             uc.UIterable([1]), uc.UIterable(['a']), uc.UContainer([1]), uc.UReversible(['a']),
-            uc.UGenList(), uc.UGenList([1]), uc.UGenList(['a']), uc.UGenList([uc.UGenList([1])]), uc.UGenPlain(), uc.UIntList(), uc.UIntList([1]), uc.UIntList(['a']), uc.UTagged(['a']), uc.UTagged([1]), uc.UGenDict(), uc.UGenDict({'a': 1}), uc.UGenDict({1: 'a'}),
+            uc.UGenList(), uc.UGenList([1]), uc.UGenList(['a']), uc.UGenList([uc.UGenList([1])]), uc.UGenPlain(), uc.UPatchSeq([1]), uc.UPatchMap({'a': 1}), uc.UIntList(), uc.UIntList([1]), uc.UIntList(['a']), uc.UTagged(['a']), uc.UTagged([1]), uc.UGenDict(), uc.UGenDict({'a': 1}), uc.UGenDict({1: 'a'}),
         ]
     return _POOL
 
